@@ -231,6 +231,44 @@ fn alphabet_lite(o: &OptSpec) -> Vec<Vec<u8>> {
     out
 }
 
+/// bytes `ParseFailure::print_message` writes to file descriptor 2 for this line (monochrome: the
+/// descriptor is a file while it is captured)
+fn printed_failure(parser: &bpaf::OptionParser<V>, argv: &[Vec<u8>]) -> Option<Vec<u8>> {
+    use std::os::unix::io::AsRawFd;
+    extern "C" {
+        fn dup(fd: i32) -> i32;
+        fn dup2(a: i32, b: i32) -> i32;
+        fn close(fd: i32) -> i32;
+    }
+    let os = crate::outcome::to_os(argv);
+    let failure = match crate::outcome::guarded(crate::outcome::DEFAULT_FUEL, || {
+        parser.run_inner(bpaf::Args::from(os.as_slice()))
+    })
+    .0
+    {
+        Ok(Err(f @ bpaf::ParseFailure::Stderr(_))) => f,
+        _ => return None,
+    };
+    let path = std::env::temp_dir().join(format!("bpaf-verif-printed-{}", std::process::id()));
+    let file = std::fs::File::create(&path).ok()?;
+    let res = unsafe {
+        let saved = dup(2);
+        if saved < 0 {
+            return None;
+        }
+        dup2(file.as_raw_fd(), 2);
+        let r = crate::outcome::guarded(crate::outcome::DEFAULT_FUEL, || failure.print_message(100)).0;
+        dup2(saved, 2);
+        close(saved);
+        r
+    };
+    drop(file);
+    let bytes = std::fs::read(&path).ok();
+    let _ = std::fs::remove_file(&path);
+    res.ok()?;
+    bytes
+}
+
 pub fn cmd_emit(args: &[String]) -> i32 {
     let get = |k: &str| {
         args.iter()
@@ -262,7 +300,19 @@ pub fn cmd_emit(args: &[String]) -> i32 {
             let o = run(&parser, v);
             execs += 1;
             *classes.entry(o.class()).or_insert(0u64) += 1;
+            // what a real process prints for a failure goes through `print_message`, which adds
+            // the `Error: ` prefix feature by feature: captured from the stderr descriptor
+            let printed = if matches!(o, Outcome::Stderr { .. }) {
+                printed_failure(&parser, v)
+            } else {
+                None
+            };
             let text = match &o {
+                Outcome::Stderr { text } if printed.is_some() => format!(
+                    "Stderr({:?}) printed({:?})",
+                    text,
+                    String::from_utf8_lossy(printed.as_deref().unwrap_or_default())
+                ),
                 Outcome::Value(x) => format!("Ok({})", x.show()),
                 Outcome::Stdout { text, full } => format!("Stdout({},{:?})", full, text),
                 Outcome::Stderr { text } => format!("Stderr({:?})", text),
